@@ -68,6 +68,7 @@ OnFinal ==
   /\ Chk("C07", "task-not-run-exactly-once", started = 1..NT /\ done = 1..NT)
   /\ Chk("C07", "final-state-differs-from-sequential-run", E.final = E.seq)
   /\ Chk("C07", "task-observations-differ-from-sequential-run", E.log = E.seqlog)
+  /\ Chk("C15", "resources-after-schedule-differ-from-sequential-run", E.final.res = E.seq.res)
   /\ Chk("C12", "independent-adjacent-tasks-serialised",
          \A a \in 1..NT : \A b \in (a + 1)..NT :
             StageOf(Tasks, a) = StageOf(Tasks, b) =>
